@@ -19,18 +19,24 @@ type Env struct {
 	old  *Env
 	self *Val
 	ctx  string // for error messages
+	soft bool   // unknown identifiers abort the clause instead of the run
 }
 
 func (env *Env) child() *Env {
-	n := &Env{e: env.e, pkg: env.pkg, vars: map[string]Val{}, st: env.st, old: env.old, ctx: env.ctx}
+	n := &Env{e: env.e, pkg: env.pkg, vars: map[string]Val{}, st: env.st, old: env.old, ctx: env.ctx, soft: env.soft}
 	for k, v := range env.vars {
 		n.vars[k] = v
 	}
 	return n
 }
 
+type softFail struct{ msg string }
+
 func (env *Env) fail(f string, a ...interface{}) Val {
 	msg := fmt.Sprintf(f, a...)
+	if env.soft {
+		panic(softFail{msg})
+	}
 	fatalf("contract expression error (%s): %s", env.ctx, msg)
 	return vUnit()
 }
@@ -684,7 +690,7 @@ func (e *Exec) applySpec(env *Env, sf *SpecFn, args []Val) Val {
 			}
 		}
 		e.readTrace = append(e.readTrace, newReadRec())
-		n := &Env{e: e, pkg: pk, vars: map[string]Val{}, st: env.st, old: env.old, ctx: "spec " + sf.Name}
+		n := &Env{e: e, pkg: pk, vars: map[string]Val{}, st: env.st, old: env.old, ctx: "spec " + sf.Name, soft: env.soft}
 		var argTerms, argSorts []string
 		for i, p := range sf.Params {
 			k, t := e.specType(sf.PkgPath, p.Type)
